@@ -4,6 +4,7 @@ from __future__ import annotations
 import copy
 import itertools
 import json
+import os
 
 from .. import core
 from ..core import Broken, Ctx, Violation
@@ -1095,7 +1096,7 @@ def det_bad(c, o) -> bool:
 def correspondence(ctx: Ctx, cases, tag="c", per=40):
     import time
     t0 = time.time()
-    obs = core.run_driver(ctx, "c01", cases, workers=8)
+    obs = core.run_driver(ctx, "c01", cases, workers=int(os.environ.get("VERIF_WORKERS", "8")))
     ctx.log(f"implementation ran {len(cases)} cases in {time.time() - t0:.1f}s")
     t0 = time.time()
     single, hist = [], []
@@ -1110,7 +1111,7 @@ def correspondence(ctx: Ctx, cases, tag="c", per=40):
             name = f"{prefix}_{k // size:03d}"
             files[name] = emit_file(pairs[k:k + size])
             chunks[name] = pairs[k:k + size]
-    res = core.coq_eval_many(ctx, files, timeout=600, par=8)
+    res = core.coq_eval_many(ctx, files, timeout=600, par=int(os.environ.get("VERIF_WORKERS", "8")))
     ctx.log(f"Coq evaluated {len(files)} case files in {time.time() - t0:.1f}s")
     mism, viol = [], []
     for name in sorted(files):
